@@ -63,7 +63,7 @@ META = {
     "partial": ["chunk invariance of vel/pos for NON-unit increments (Taylor band 0 < |w dt| <= eps of so3 Exp) is proved as a BOUND, "
                 "not an equality: exact up to an explicit defect, |dvel| <= K*(#chunks)*sum|dt||a|, |dpos| <= K*(#chunks)*(double sum), "
                 "K = 3 eta + 3 eta^2, eta = (1+eps^6)^(frames) - 1, for any number of cuts (chunk_list_every_stream; one cut: "
-                "chunk_two_every_stream); exact equality needs unit increments (chunk_invariant); rot, cov, Rij are exactly "
+                "chunk_two_every_stream; closed form K <= 12*N*eps^6 when 2*N*eps^6 <= 1: chunk_list_every_stream_closed); exact equality needs unit increments (chunk_invariant); rot, cov, Rij are exactly "
                 "chunk-invariant without hypothesis (chunk_invariant_rot_cov)",
                 "float round-off: theorems are over the reals; agreement of the float code with the exact model is measured "
                 "at 64*eps*(frames+2)*scale (covariance: 8x that + 16*sqrt(eps) for the cancellation inside so3 Jr)"],
@@ -311,20 +311,20 @@ def user_imu_class():
         P = pp()
 
         class UserIMU(P.module.IMUPreintegrator):
-            calls = {"integrate": 0, "predict": 0, "propagate_cov": 0}      # the user's overrides must be the ones that run
+            vfh16_calls = {"integrate": 0, "predict": 0, "propagate_cov": 0}      # the user's overrides must be the ones that run
 
             def integrate(self, *a, **k):
-                UserIMU.calls["integrate"] += 1
+                UserIMU.vfh16_calls["integrate"] += 1
                 return super().integrate(*a, **k)
 
             @classmethod
             def predict(cls_, init_state, integrate):
-                UserIMU.calls["predict"] += 1
+                UserIMU.vfh16_calls["predict"] += 1
                 return super().predict(init_state, integrate)
 
             @classmethod
             def propagate_cov(cls_, *a, **k):
-                UserIMU.calls["propagate_cov"] += 1
+                UserIMU.vfh16_calls["propagate_cov"] += 1
                 return super().propagate_cov(*a, **k)
         UserIMU.__qualname__ = "UserIMU"
         UserIMU.__module__ = __name__
@@ -669,11 +669,11 @@ def run_impl(case, D, chunks=None, rank=None, disturb=False, grad_mode=None, hoo
         snap = [plain(x) for x in guards]
         before = module_attrs(m)
         if case.get("subclass"):
-            cnt0 = dict(type(m).calls)
+            cnt0 = dict(type(m).vfh16_calls)
         o = do_call(m, case, args, kw, grad_mode)
         if case.get("subclass"):
             want = {"integrate": 1, "predict": 1, "propagate_cov": 1 if case["prop_cov"] else 0}
-            got = {k: type(m).calls[k] - cnt0[k] for k in want}
+            got = {k: type(m).vfh16_calls[k] - cnt0[k] for k in want}
             if got != want:
                 raise Misbehaviour(f"subclass: forward on a user subclass ran the user's overrides {got} times, expected {want} "
                                    f"(dispatch by class identity instead of the object's own methods)")
